@@ -10,6 +10,23 @@ NOTES = {
  "C12-1": "first missed (needs reserve() beyond 2^31); C11/C12 histories now contain huge reserves (documented overflow panic, tendril must stay intact).",
  "C17-2": "first missed by C17 (needs an element named template in the XHTML namespace); the XML generator now has that name and namespace.",
  "C18-2": "needs a script that detaches an ancestor at a script pause; C18 now simulates such scripts.",
+ "r2-C01-1": "first missed by C01: its normalisation split NUL out of character runs on both sides; NUL inside CharacterTokens is now its own token kind that never matches.",
+ "r2-C05-2": "first missed by C05: the monitor accepted any element as form-association target; it now requires a form-associatable HTML element.",
+ "r2-C06-1": "first missed by C06 (six conditions: foreign element with a table-part name, integration point, table opened and closed, table-structure tag); the HTML generator now has foreign elements with HTML-meaningful names.",
+ "r2-C06-2": "first missed by C06 (needs selectedcontent ending in text + selected option starting with text); the HTML generator now emits whole customizable-select blocks.",
+ "r2-C04-2": "first evaluation lost (process killed); needs select/selectedcontent/table/selected option/</option>/foster-parented text; caught since the generator emits customizable-select blocks.",
+ "r2-C07-1": "first missed by C07 (threshold 4096 bytes before the character to escape); generated text/attribute values now have plain runs of 2^k-2..2^k+1 bytes up to 64 KiB.",
+ "r2-C12-2": "first missed by C12 (copy of >=128 KiB with length mod 4096 in 4081..4095); lengths now include size classes and page multiples up to 1 MiB, +-20.",
+ "r2-C13-1": "first missed by C13 (SWAR carry: '?' in the set directly after a character ending in 0xBF); alphabet and sets extended to the bitmap edge and the UTF-8 byte boundaries.",
+ "r2-C13-2": "first missed by C13 (buffers >= 64 bytes of characters >= 64 with a set member in the last len%8 bytes); long high-byte runs added.",
+ "r2-C15-1": "first missed by C15 (numeric reference >= 2^32 split across chunks); the XML token soup has such references.",
+ "r2-C15-2": "first missed by C15 (>= 64 script suspensions in one process() call of the crate's own driver); C15 now also drives XmlParser::process/finish and the soup repeats fragments 20-90 times.",
+ "r2-C08-2": "first missed by C08 and C15 (form feed in an unquoted XML attribute value under exact_errors); the XML token soup has unquoted values with FF/TAB/CR separators.",
+ "r2-C16-1": "first missed by C16 (more than 20 prefixed attributes on one tag); tags with 17-40 attributes added.",
+ "r2-C17-1": "first missed by C17 (U+0085 in text); C1 controls, U+0085, U+2028/9 added to the pools.",
+ "r2-C19-1": "first missed by C19 and C08 (profile=true loop drops the indicator); C19 toggles profile/exact_errors, C08 compares the sequence of feed() results.",
+ "r2-C20-1": "C20 first did not terminate on this change (RcDom's own ancestor walk looped on the stale parent link): exit 143 when killed. C20 now compares every handle's parent link after every direct operation and reports the stale link where it is created; the engine has a watchdog (exit 2).",
+ "C02-2": "patch re-based by hand after /repo commit 01c708b moved the changed block (original kept as patch.orig.diff).",
 }
 for d in sorted(glob.glob(os.path.join(root, "seeded", "C*-*")) + glob.glob(os.path.join(root, "seeded", "r2-C*-*"))):
     name = os.path.basename(d)
